@@ -76,8 +76,31 @@ def functional_trees(tier):
     for f in labelled_forests(3 if tier == 'quick' else 4):
         out.append(('none', f))
         out.append(('comment-all', T.fill_gaps(f, lambda i, top: ('c', 'k'))))
+        # the same shape with its first child-bearing element renamed to iframe: for combinators, :has() and the structural pseudo-classes an
+        # iframe with element children (html.parser, API-built trees) is an ordinary parent
+        g = _rename_first_parent(f, 'iframe')
+        if g is not None:
+            out.append(('iframe-parent', g))
     _CACHE[key] = out
     return out
+
+
+def _rename_first_parent(forest, name):
+    done = [False]
+
+    def rec(nodes):
+        res = []
+        for n in nodes:
+            if n[0] == 'e' and not done[0] and any(k[0] == 'e' for k in n[3]):
+                done[0] = True
+                res.append((n[0], name, n[2], n[3]) + tuple(n[4:]))
+            elif n[0] == 'e':
+                res.append((n[0], n[1], n[2], rec(n[3])) + tuple(n[4:]))
+            else:
+                res.append(n)
+        return tuple(res)
+    out = rec(forest)
+    return out if done[0] else None
 
 
 def attr_trees(tier):
@@ -241,8 +264,8 @@ def attr_selectors(tier):
 
 
 LAYERS = {
-    'S': (structure_trees, structure_selectors, ('api-html', 'api-xml')),
-    'F': (functional_trees, functional_selectors, ('api-html', 'api-xml')),
+    'S': (structure_trees, structure_selectors, ('api-html', 'api-xml', 'api-detached')),
+    'F': (functional_trees, functional_selectors, ('api-html', 'api-xml', 'api-detached')),
     'A': (attr_trees, attr_selectors, ('api-html', 'api-xml', 'api-xhtml', 'api-html5')),
     'PS': (lambda tier: [t for t in structure_trees('quick') if '@' not in t[0]][::1 if tier != 'quick' else 2],
            lambda tier: structure_selectors('quick')[::7 if tier == 'quick' else 2],
@@ -303,12 +326,14 @@ def docs_for(layer, tier):
         for kind in kinds:
             if kind == 'api-xml' and layer in ('S', 'F') and ti % 3:
                 continue        # structure does not depend on the document type: XML twin for every third tree
+            if kind == 'api-detached' and (len(forest) != 1 or forest[0][0] != 'e' or not forest[0][3]):
+                continue        # detached twin (call target = the root element, nothing above it) for every single-rooted tree with children
             try:
                 soup = _sel.build(forest, kind)
             except Exception:
                 skipped += 1
                 continue
-            if kind not in ('api-html', 'api-xml'):
+            if kind not in ('api-html', 'api-xml', 'api-detached'):
                 fp = (kind, T.fingerprint(soup))
                 if fp in seen:
                     continue
@@ -342,7 +367,7 @@ def record_failure(res, sv, layer, forest, kind, lst, tindex, r):
     rr = fails(f2, l2) or r
     sig = {'kind': rr['status'], 'direction': rr.get('direction', rr.get('exc', '')),
            'atoms': '+'.join(sorted(_sel.atoms_of(l2))), 'tree': '+'.join(sorted(tree_features(f2))),
-           'doc': 'xml' if kind in ('api-xml', 'xml') else ('xhtml' if kind == 'api-xhtml' else 'html-ns' if kind == 'api-html5' else 'html')}
+           'doc': 'xml' if kind in ('api-xml', 'xml') else ('xhtml' if kind == 'api-xhtml' else 'html-ns' if kind == 'api-html5' else 'detached' if kind == 'api-detached' else 'html')}
     res.fail({'layer': layer, 'forest': f2, 'kind': kind, 'selector': l2, 'target': tindex, 'text': S.render(l2)},
              sig, rr.get('detail', ''))
 
